@@ -1,0 +1,37 @@
+//go:build verif
+
+package protocol
+
+// Verification hooks (build tag verif): thin exported wrappers around unexported
+// pure functions so that an external harness can compare them with a model.
+
+func VerifNormalizePath(dst, src []byte) []byte { return normalizePath(dst, src) }
+
+func VerifDecodeArgAppend(dst, src []byte) []byte { return decodeArgAppend(dst, src) }
+
+func VerifDecodeArgAppendNoPlus(dst, src []byte) []byte { return decodeArgAppendNoPlus(dst, src) }
+
+func VerifAppendHeaderLine(dst, key, value []byte) []byte { return appendHeaderLine(dst, key, value) }
+
+func VerifNewlineToSpace(val []byte) []byte { return newlineToSpace(val) }
+
+func VerifSplitHostURI(host, uri []byte) ([]byte, []byte, []byte) { return splitHostURI(host, uri) }
+
+func VerifGetScheme(rawURL []byte) (scheme, path []byte) { return getScheme(rawURL) }
+
+// VerifParseRequestCookies returns the key/value pairs parseRequestCookies produces.
+func VerifParseRequestCookies(src []byte) (out [][2][]byte) {
+	for _, kv := range parseRequestCookies(nil, src) {
+		out = append(out, [2][]byte{append([]byte(nil), kv.key...), append([]byte(nil), kv.value...)})
+	}
+	return out
+}
+
+// VerifAppendRequestCookieBytes serialises key/value pairs the way the request Cookie line does.
+func VerifAppendRequestCookieBytes(dst []byte, kvs [][2][]byte) []byte {
+	var cookies []argsKV
+	for _, p := range kvs {
+		cookies = append(cookies, argsKV{key: p[0], value: p[1]})
+	}
+	return appendRequestCookieBytes(dst, cookies)
+}
